@@ -6,6 +6,7 @@
 #include <sys/wait.h>
 #include <unistd.h>
 
+#include "io.hpp"
 #include "optable.hpp"
 
 namespace sim
@@ -122,6 +123,33 @@ namespace sim
             p.site_mask = USER_SITES;
          }
       }
+      else if( check == "C07" && ( sub == 1 || sub == 4 ) ) {
+         // fixed grammars through the stock file / stream / string / argv input classes
+         j.mode = MODE_IO;
+         j.set = static_cast< SetId >( IO_LAZY + r.below( IO_LAST - IO_LAZY + 1 ) );
+         Case& c = j.c;
+         c.prog = 1 + r.below( IO_PROGS );
+         c.vetoseed = r.next();
+         c.input = gen_io_input( mix64( s, 0x696f ), static_cast< int >( c.prog ), int( j.set ) );
+         const bool stream = ( int( j.set ) == IO_CSTREAM || int( j.set ) == IO_ISTREAM );
+         c.maximum = static_cast< std::uint32_t >( c.input.size() ) + 64;
+         if( stream || int( j.set ) == IO_READ_FP ) {
+            gen_stream_plan( mix64( s, 0x706c616e ), c, 64 );
+            c.maximum = static_cast< std::uint32_t >( c.input.size() ) + 64;
+         }
+         const unsigned fk = r.below( 8 );
+         if( fk == 0 && ( stream || int( j.set ) == IO_READ_FP ) ) {
+            c.faults.push_back( FaultOp{ SITE_READER, EXC_IO, static_cast< std::uint16_t >( r.range( 1, 4 ) ) } );
+         }
+         else if( fk == 1 && ( int( j.set ) == IO_READ || int( j.set ) == IO_READ_FP || int( j.set ) == IO_MMAP || int( j.set ) == IO_FILE ) ) {
+            c.faults.push_back( FaultOp{ SITE_SYSCALL, EXC_IO, static_cast< std::uint16_t >( r.range( 1, 3 ) ) } );
+         }
+         else if( fk == 2 ) {
+            c.faults.push_back( FaultOp{ SITE_ACTION, static_cast< std::uint8_t >( r.chance( 1, 2 ) ? EXC_FAULT : EXC_STD ), static_cast< std::uint16_t >( r.range( 1, 6 ) ) } );
+         }
+         j.with_faults = !c.faults.empty();
+         return j;
+      }
       else if( check == "C07" ) {
          j.mode = MODE_EQUAL;
          const Focus fs[] = { FOCUS_STREAM, FOCUS_STREAM, FOCUS_GENERAL, FOCUS_CONSUME, FOCUS_EXC };
@@ -203,6 +231,9 @@ namespace sim
       if( !set_available( j.set ) ) {
          return false;
       }
+      if( j.mode == MODE_IO ) {
+         return set_available( static_cast< SetId >( IO_MEM ) );
+      }
       if( ( j.mode == MODE_EQUAL || j.mode == MODE_UNGUARDED ) && !set_available( SET_MEM ) ) {
          return false;
       }
@@ -267,6 +298,24 @@ namespace sim
             }
             check_history( j.c, SET_TREE, r, all, v.f );
             check_tree( j.c, r, all, v.f );
+            break;
+         }
+         case MODE_IO: {
+            const RunResult ref = run_case( static_cast< SetId >( IO_MEM ), j.c );
+            account( ref, v );
+            const RunResult alt = run_case( j.set, j.c );
+            account( alt, v );
+            v.fingerprint = mix64( ref.hash, alt.hash );
+            if( ref.aborted || alt.aborted ) {
+               v.discarded = true;
+               return v;
+            }
+            Features fr;
+            check_history( j.c, static_cast< SetId >( IO_MEM ), ref, all, fr );
+            check_history( j.c, j.set, alt, all, v.f );
+            check_equal( j.c, static_cast< SetId >( IO_MEM ), ref, j.set, alt, 64, all, v.f );
+            check_iofault( j.c, alt, all, v.f );
+            v.f.nontrivial = true;
             break;
          }
          case MODE_COVERAGE: {
